@@ -9,8 +9,9 @@ Exact ties: the step each of split / join / lift / wrap records equals the step 
 can_join, join_point, lift_target, find_wrapping, insert_point, drop_point, can_change_type) equals the model's
 (lean/PM/Structure.lean, Structure2.lean), `None` and "raises" included, also at off-guard positions.
 Guard ties (relational, all schemas incl. random and aimed ones): the guards of the theorems "an approved edit applies"
-(Props/C12.lean `canSplit_split_applies`, `canJoin_join_applies`, `findWrapping_wrap_succeeds`; model functions `splitGuard`,
-`joinGuard`, `wrapGuard` ∧ `wrapBuilds` of lean/PM/Structure.lean, Structure2.lean, StructEdit.lean) are evaluated by the
+(Props/C12.lean `canSplit_split_applies`, `canJoin_join_applies`, `findWrapping_wrap_succeeds`, `liftTarget_lift_applies`;
+model functions `splitGuard`, `joinGuard`, `wrapGuard` ∧ `wrapBuilds`, `liftGuard` / `liftFlatGuard` of lean/PM/Structure.lean,
+Structure2.lean, StructEdit.lean) are evaluated by the
 driver at every approved edit: approved ∧ guard ⇒ the real edit succeeded (a mismatch otherwise).  Aimed schemas
 (`AIMED`, outside the family: approval without the guard is known not to be enough there) make the guards bite.
 Search: approve ⇒ perform ⇒ `check()` ∧ leaf/text sequence equal; helpers never die with an internal
@@ -72,6 +73,18 @@ def aimed():
                 "box": {"content": "item+", "group": "block"}, "item": {"content": "(p | sec)+"}, "sec": {"content": "p p+"},
                 "pair": {"content": "cell cell", "group": "block"}, "cell": {"content": "p+"},
                 "text": {"inline": True}}, "marks": {"em": {}}}), "wrap-first-child"),
+            # `lift_target` asks whether the target accepts the content *instead of* the range's ancestor; when the lift splits,
+            # the copies left behind stay: doc(blockquote(p, p)) lifting one paragraph is approved and would give doc(blockquote(p), p)
+            schemas.SchemaInfo(Schema({"nodes": {
+                "doc": {"content": "blockquote | paragraph+"}, "blockquote": {"content": "paragraph+"},
+                "paragraph": {"content": "text*"}, "text": {}}, "marks": {"em": {}}}), "lift-copy"),
+            # not TextStable, nested inline nodes: lifting `span2("b"), "c"` out of p("x", span1(span2("b"), "c"), "y") splits nothing,
+            # `can_replace` accepts `text span2 text text`, the replace merges "c" and "y"
+            schemas.SchemaInfo(Schema({"nodes": {
+                "doc": {"content": "p+"},
+                "p": {"content": "(text|image) span1 (text|image) | (text|image) span2 (text|image) (text|image)"},
+                "span1": {"inline": True, "content": "(span2|image) text*"}, "span2": {"inline": True, "content": "text*"},
+                "image": {"inline": True}, "text": {"inline": True}}}), "lift-unstable"),
         ]
     return _AIMED
 
@@ -133,6 +146,8 @@ def run(ctx):
                 # relational: approved ∧ guard ⇒ the real edit succeeded
                 g = out.get("ok")
                 ctx.count(f"{op}: guard={g} edit {'succeeded' if exp else 'failed'}")
+                if op == "guard lift" and g is True:
+                    ctx.count("guard lift: holds, " + ("nothing is split" if out.get("flat") else "ancestors are split"))
                 if g is True and not exp:
                     ctx.mismatch(op, replay, "the approved edit succeeds whenever the theorem's guard holds", "guard holds, the real edit failed")
                 elif g not in (True, False):
@@ -251,8 +266,12 @@ def run(ctx):
                         if not (0 <= tgt < br.depth):
                             ctx.violation("lift_target-range", "lift_target returned a depth outside [0, range depth)", dict(replay, target=tgt))
                         else:
-                            perform(ctx, info, d, "lift", lambda tr: tr.lift(br, tgt), dict(replay, target=tgt), reqs, metas, bundled,
-                                    build={"k": "lift", "from": br.from_.pos, "to": br.to.pos, "depth": br.depth, "target": tgt})
+                            done = perform(ctx, info, d, "lift", lambda tr: tr.lift(br, tgt), dict(replay, target=tgt), reqs, metas, bundled,
+                                           build={"k": "lift", "from": br.from_.pos, "to": br.to.pos, "depth": br.depth, "target": tgt})
+                            # `liftTarget_lift_applies(_flat)`: approved ∧ (nothing is split ∨ the pieces the split leaves are valid)
+                            # ∧ TextStable ⇒ the lift succeeded
+                            guard(info, d, "lift", {"from": br.from_.pos, "to": br.to.pos, "depth": br.depth, "target": tgt},
+                                  dict(replay, target=tgt), done is not None)
                     if block_types:
                         wt = rng.choice(block_types)
                         attrs = gen.gen_attrs(rng, wt)
